@@ -33,7 +33,7 @@ func init() {
 		Plan: func(tier string, seed int64) []Batch {
 			var bs []Batch
 			bs = append(bs, splitBatches("exh", 13, false, 1, map[string]string{"mode": "exh"})...)
-			n := 3
+			n := 8
 			if tier == "thorough" {
 				n = 12
 			}
@@ -210,7 +210,7 @@ func mutate(r interface{ Intn(int) int }, s string) string {
 
 func runC02Mut(c *Ctx) {
 	part, parts := c.ArgInt("part", 0), c.ArgInt("parts", 1)
-	total := c.Pick(600_000, 24_000_000)
+	total := c.Pick(3_000_000, 40_000_000)
 	per := total / parts
 	outcomes := map[string]int64{}
 	for i := 0; i < per; i++ {
@@ -310,7 +310,7 @@ func c02MakeProbe(r interface{ Intn(int) int }, idx int) c02Probe {
 
 func runC02Live(c *Ctx) {
 	tracking := c.Arg("tracking", "0") == "1"
-	total := c.Pick(5_000, 250_000)
+	total := c.Pick(12_000, 250_000)
 	sessLen := 250
 	logger := rig.NewCapLogger(nil)
 	logger.Discard = func(r *rig.LogRecord) bool {
